@@ -490,6 +490,9 @@ func execLife(x *X, base string, ops []Op, or lifeOracles) {
 			if or.model && op.I%2 == 1 {
 				// the same question asked through the command line, bulk and HTTP paths
 				validateEntryOracle(x, Marshal(s.env), int(op.I)*5, base+" after "+fmt.Sprint(i)+" steps, model: "+s.abstract())
+				if op.I == 3 {
+					buildEntryOracle(x, Marshal(s.env), int(op.I)*5, base+" after "+fmt.Sprint(i)+" steps, model: "+s.abstract())
+				}
 			}
 		case "verify":
 			var keys []*dsig.PublicKey
